@@ -110,9 +110,10 @@ LightFaults(ts) ==
 Nm(i) == <<114, 48 + i>>
 IdR(i) == Id(CASE i = 0 -> "r0" [] i = 1 -> "r1" [] OTHER -> "r2", Nm(i))
 X == S(<<120>>)
+Y == S(<<121>>)      \* (a different first alternative: `x | x ~ ..` would be factored away before the later passes see it)
 RefBodies == UNION { { IdR(i), [t |-> "seq", a |-> IdR(i), b |-> X], [t |-> "alt", a |-> IdR(i), b |-> X],
                        [t |-> "rep", a |-> IdR(i)], [t |-> "seq", a |-> [t |-> "opt", a |-> X], b |-> IdR(i)],
-                       [t |-> "alt", a |-> X, b |-> [t |-> "seq", a |-> X, b |-> [t |-> "seq", a |-> IdR(i), b |-> IdR(i)]]],
+                       [t |-> "alt", a |-> Y, b |-> [t |-> "seq", a |-> X, b |-> [t |-> "seq", a |-> IdR(i), b |-> IdR(i)]]],
                        [t |-> "alt", a |-> [t |-> "seq", a |-> [t |-> "opt", a |-> X], b |-> IdR(i)], b |-> X],
                        [t |-> "rep", a |-> [t |-> "seq", a |-> [t |-> "opt", a |-> X], b |-> IdR(i)]] } : i \in 0..2 } \cup {X}
 ShapeOn(k, i) ==
@@ -121,7 +122,7 @@ ShapeOn(k, i) ==
     [] k = 3 -> [t |-> "alt", a |-> IdR(i), b |-> X]
     [] k = 4 -> [t |-> "rep", a |-> IdR(i)]
     [] k = 5 -> [t |-> "seq", a |-> [t |-> "opt", a |-> X], b |-> IdR(i)]
-    [] k = 6 -> [t |-> "alt", a |-> X, b |-> [t |-> "seq", a |-> X, b |-> [t |-> "seq", a |-> IdR(i), b |-> IdR(i)]]]
+    [] k = 6 -> [t |-> "alt", a |-> Y, b |-> [t |-> "seq", a |-> X, b |-> [t |-> "seq", a |-> IdR(i), b |-> IdR(i)]]]
     [] k = 7 -> [t |-> "alt", a |-> [t |-> "seq", a |-> [t |-> "opt", a |-> X], b |-> IdR(i)], b |-> X]
     [] OTHER -> [t |-> "rep", a |-> [t |-> "seq", a |-> [t |-> "opt", a |-> X], b |-> IdR(i)]]
 SemToks(f) == AllToks(<< [name |-> Nm(0), ty |-> "", tych |-> <<>>, e |-> f[0]],
